@@ -1085,16 +1085,20 @@ class Engine:
         return self.eval(node.orelse, env)
 
     def ex_BoolOp(self, node, env):
+        """Python semantics: `a and b` / `a or b` return one of the operand VALUES; symbolic truth values are decided by
+        branching (the decision is recorded in the path condition)."""
         is_and = isinstance(node.op, ast.And)
         v = None
         for e in node.values:
             v = self.eval(e, env)
             t = self.truth(v)
             if is_and and not t:
-                return v if not is_sym(v) else False
+                return False if (is_sym(v) and z3.is_bool(v)) else v
             if not is_and and t:
-                return v if not is_sym(v) else True
-        return v if not is_sym(v) else (True if is_and else False)
+                return True if (is_sym(v) and z3.is_bool(v)) else v
+        if is_sym(v) and z3.is_bool(v):
+            return True if is_and else False
+        return v
 
     def ex_UnaryOp(self, node, env):
         v = self.eval(node.operand, env)
